@@ -15,7 +15,7 @@ import (
 func init() {
 	register(&Prop{
 		ID:         "C07",
-		Decided:    "(1) in processAggregationResults the clauses run in relational order on every path: DISTINCT, HAVING, strip of hidden HAVING columns, ORDER BY, LIMIT, delivery; (2) LIMIT keeps a prefix results[:Limit] and only when len>Limit; (3) every hidden-column family the parser creates (__having_N__, __winagg_N__) has a strip site with a matching prefix in the stream package; (3b) a HAVING aggregate call is bound only to the alias of that very call text, to the call text itself, or to a freshly registered hidden aggregate; (4) compareOrderValues returns -1/0/+1 exactly for a<b / a=b / a>b on numbers (NaN unordered => 0), times and strings; Sorter.less uses c<0 for ASC and c>0 for DESC and continues to the next key on ties. Also: the batch handed to the result channel and the sinks is never backed by storage the engine keeps (field or package variable); text heuristics that cut 'first ( … last )' prove that the call spans the text (or every caller does); an aggregate registered from ParseAggregateTypeWithExpression is registered together with its expression argument. Also: a HAVING predicate that cannot be compiled filters everything out (never returns its input); float ORDER BY keys are converted to integers only after an integrality test; clause-text loops can end at every later clause keyword.",
+		Decided:    "(1) in processAggregationResults the clauses run in relational order on every path: DISTINCT, HAVING, strip of hidden HAVING columns, ORDER BY, LIMIT, delivery; (2) LIMIT keeps a prefix results[:Limit] and only when len>Limit; (3) every hidden-column family the parser creates (__having_N__, __winagg_N__) has a strip site with a matching prefix in the stream package; (3b) a HAVING aggregate call is bound only to the alias of that very call text, to the call text itself, or to a freshly registered hidden aggregate; (4) compareOrderValues returns -1/0/+1 exactly for a<b / a=b / a>b on numbers (NaN unordered => 0), times and strings; Sorter.less uses c<0 for ASC and c>0 for DESC and continues to the next key on ties. Also: the batch handed to the result channel and the sinks is never backed by storage the engine keeps (field or package variable); text heuristics that cut 'first ( … last )' prove that the call spans the text (or every caller does); an aggregate registered from ParseAggregateTypeWithExpression is registered together with its expression argument. Also: a HAVING predicate that cannot be compiled filters everything out (never returns its input); float ORDER BY keys are converted to integers only after an integrality test; clause-text loops can end at every later clause keyword. Also: a stage that sweeps result rows by pattern (ranges over the row and deletes by prefix) tests a prefix that is not also a prefix of another hidden column family (__having_, __winagg_, …): it cannot delete what a later stage still reads (ownmap/hidden-column-families).",
 		NotDecided: "the arithmetic of post-aggregation expressions and the classification of SELECT items, HAVING truth values, DISTINCT's JSON-based equality, aggregate values.",
 		Run:        runC07,
 	})
@@ -167,6 +167,7 @@ func runC07(a *A) {
 	a.Rule("flow/expression-argument-registered", 3, func() { a.ruleExpressionArgumentRegistered() })
 	a.Rule("tables/clause-terminators", 12, func() { a.ruleClauseTerminators() })
 	a.Rule("flow/having-fails-closed", 2, func() { a.ruleHavingFailsClosed() })
+	a.Rule("ownmap/hidden-column-families", 2, func() { a.ruleHiddenColumnFamilies() })
 	a.Rule("shape/keyword-by-substring", 2, func() { a.ruleKeywordBySubstring("rsql", "stream", "aggregator", "functions", "condition") })
 }
 
@@ -821,4 +822,139 @@ func (a *A) ruleLosslessOrderKeys() int {
 		})
 	}
 	return n
+}
+
+// ruleHiddenColumnFamilies: the pipeline parks intermediate values in result rows under hidden column
+// families told apart by their prefix (aggregate placeholders "__name__", "__having_N__" for HAVING,
+// "__winagg_…" for inline aggregates). A stage that sweeps a row (ranges over it and deletes by
+// pattern) may only take its own family: the prefix it tests must not also be a prefix of another
+// family's prefix — a sweep for "__" run by the post-aggregation stage deletes "__having_1__" before
+// HAVING has read it, and every group is dropped.
+func (a *A) ruleHiddenColumnFamilies() int {
+	// the families: "__x…" constants used to build or test column names
+	fam := map[string]bool{}
+	for _, fn := range a.ModFuncs {
+		if fn.Blocks == nil || fn.Pkg == nil {
+			continue
+		}
+		switch fn.Pkg {
+		case a.Pkg("rsql"), a.Pkg("stream"), a.Pkg("aggregator"), a.Pkg("window"):
+		default:
+			continue
+		}
+		allInstrs(fn, func(in ssa.Instruction) {
+			var ops []ssa.Value
+			switch x := in.(type) {
+			case *ssa.BinOp:
+				if x.Op == token.ADD {
+					ops = []ssa.Value{x.X, x.Y}
+				}
+			case *ssa.Call:
+				if sc := x.Call.StaticCallee(); sc != nil && sc.Pkg != nil && sc.Pkg.Pkg.Path() == "strings" && sc.Name() == "HasPrefix" {
+					ops = x.Call.Args[1:]
+				}
+			}
+			for _, o := range ops {
+				if s := constText(o); strings.HasPrefix(s, "__") && len(s) > 2 && !strings.HasSuffix(s, "__") {
+					fam[s] = true
+				}
+			}
+		})
+	}
+	// prefix tests inside a function on a given parameter index (one helper level)
+	var prefixesOf func(cond ssa.Value, k ssa.Value, d int) []string
+	prefixesOf = func(cond ssa.Value, k ssa.Value, d int) []string {
+		var out []string
+		for x := range backwardSlice(cond, 4) {
+			c, ok := x.(*ssa.Call)
+			if !ok {
+				continue
+			}
+			sc := c.Call.StaticCallee()
+			if sc == nil {
+				continue
+			}
+			if sc.Pkg != nil && sc.Pkg.Pkg.Path() == "strings" && sc.Name() == "HasPrefix" && c.Call.Args[0] == k {
+				out = append(out, constText(c.Call.Args[1]))
+				continue
+			}
+			if d < 2 && a.fnInModule(sc) && sc.Blocks != nil {
+				for i, arg := range c.Call.Args {
+					if arg != k || i >= len(sc.Params) {
+						continue
+					}
+					// every prefix test the helper makes on that parameter (they may sit in the conditions
+					// of a short-circuit, not in the returned value)
+					allInstrs(sc, func(y ssa.Instruction) {
+						if hc, ok := y.(*ssa.Call); ok {
+							if hs := hc.Call.StaticCallee(); hs != nil && hs.Pkg != nil && hs.Pkg.Pkg.Path() == "strings" && hs.Name() == "HasPrefix" && hc.Call.Args[0] == ssa.Value(sc.Params[i]) {
+								out = append(out, constText(hc.Call.Args[1]))
+							}
+						}
+					})
+				}
+			}
+		}
+		return out
+	}
+	n := 0
+	for _, fn := range a.ModFuncs {
+		if fn.Blocks == nil || (fn.Pkg != a.Pkg("stream") && fn.Pkg != a.Pkg("aggregator")) {
+			continue
+		}
+		for _, l := range mapRangeLoops(fn) {
+			for b := range l.Blocks {
+				for _, in := range b.Instrs {
+					c, ok := in.(*ssa.Call)
+					if !ok {
+						continue
+					}
+					cc, ok := isBuiltinCall(c, "delete")
+					if !ok {
+						continue
+					}
+					// the same map that is ranged over, and the loop's key
+					if !sameValueOrLoad(cc.Args[0], l.X) {
+						continue
+					}
+					key := cc.Args[1]
+					var prefixes []string
+					guarded := false
+					for _, g := range guardsOf(b) {
+						if !l.Blocks[g.If.Block()] {
+							continue
+						}
+						guarded = true
+						prefixes = append(prefixes, prefixesOf(g.Cond, key, 0)...)
+					}
+					if !guarded {
+						continue // clearing a map, not a sweep by pattern
+					}
+					n++
+					bad := ""
+					if len(prefixes) == 0 {
+						bad = "no constant prefix test on the column name recognised"
+					}
+					for _, p := range prefixes {
+						for q := range fam {
+							if q != p && strings.HasPrefix(q, p) {
+								bad = fmt.Sprintf("the sweep takes every column starting with %q, which includes the family %q of another stage", p, q)
+							}
+						}
+					}
+					a.Check(bad == "", fmt.Sprintf("%s#sweep-own-family", fname(fn)), in.Pos(),
+						fmt.Sprintf("the row sweep deletes the columns of one hidden family only (prefix %v)", prefixes),
+						"a stage sweeps result rows by pattern: "+bad+" — hidden values another stage still needs (HAVING aggregates, inline window aggregates) are deleted before they are read")
+				}
+			}
+		}
+	}
+	return n
+}
+
+func sameValueOrLoad(x, y ssa.Value) bool {
+	if x == y {
+		return true
+	}
+	return TermOf(x, nil).String() == TermOf(y, nil).String()
 }
